@@ -201,6 +201,9 @@ func (hasher *PathHasher) hash(path string, store, read, timestamp bool) ([]byte
 		return h.Sum(nil), nil
 	} else if err == nil && info.IsDir() {
 		err = WalkMode(path, func(p string, mode Mode) error {
+			// Include where each entry is within the directory, otherwise renaming or moving
+			// things inside it (with the same contents) would not change the hash.
+			h.Write([]byte(strings.TrimPrefix(p, path)))
 			if mode.IsSymlink() {
 				// Is a symlink, must verify that it's not absolute.
 				deref, err := os.Readlink(p)
